@@ -151,6 +151,24 @@ def asstr_probe():
         return {"error": str(e)[:200]}
 
 
+def report_probe(k, rounds):
+    """rendered diagnostics (`utils::error::report`, process-wide path-keyed source cache): K threads report different
+    in-memory programs under ONE path; every diagnostic block must equal one the same job prints alone"""
+    try:
+        scratch = os.path.join(c15.WORK, "c19_report_%d.txt" % os.getpid())
+        os.makedirs(c15.WORK, exist_ok=True)
+        p = mmh("C19", ["report", str(k), str(rounds), scratch], timeout=300)
+        r = parse(p.stdout)["REPORT"]
+        if r:
+            f = r[0]
+            return {"threads": k, "rounds": rounds, "blocks": int(f[1]), "bad": int(f[2]), "lost_or_extra": int(f[3]),
+                    "first_bad": f[4].replace("\\n", "\n") if len(f) > 4 else "", "same_job_alone": f[5].replace("\\n", "\n") if len(f) > 5 else "",
+                    "blocks_alone": int(f[6]) if len(f) > 6 and f[6].isdigit() else None}
+        return {"crashed_rc": p.returncode}
+    except Exception as e:
+        return {"error": str(e)[:200]}
+
+
 KINDS = ["closure", "diag", "annot", "stateful", "ctor", "tparam", "staged"]
 
 
@@ -297,6 +315,17 @@ def main(ctx, args):
         ctx.violation("a `Symbol::as_str` slice is left dangling by concurrent interning: " + probe.get("first", "")[:200],
                       dict(probe, kind="as_str-slice-dangles", threads=8, rounds=300, replay_cmd="target/debug/c19 asstr 8 300",
                            what_to_look_at="third column of the @@ASSTR line = held slices whose text moved"))
+    # rendered diagnostics under one path (more rounds in the thorough tier and whenever a proof obligation of C19 is broken)
+    heavy = (not quick) or bool(getattr(ctx, "_pending_obligation", None)) or not proved
+    reps = [report_probe(4, 60), report_probe(8, 40)] + ([report_probe(16, 300), report_probe(4, 1500)] if heavy else [])
+    ctx.coverage["rendered_diagnostics_same_path"] = [{k2: v for k2, v in rp.items() if k2 not in ("first_bad", "same_job_alone")} for rp in reps]
+    for rp in reps:
+        if rp.get("bad") or rp.get("lost_or_extra") or "crashed_rc" in rp or "error" in rp or not rp.get("blocks"):
+            ctx.violation(f"{rp.get('bad')} of {rp.get('blocks')} diagnostics rendered by `report` while {rp.get('threads')} threads report different programs under one "
+                          f"path differ from what the same job prints alone ({rp.get('lost_or_extra')} lost/extra): " + (rp.get("first_bad") or str(rp))[:300],
+                          dict(rp, kind="rendered-diagnostic-from-another-threads-program", replay_cmd=f"target/debug/c19 report {rp.get('threads')} {rp.get('rounds')} /tmp/x.txt",
+                               what_to_look_at="third column of the @@REPORT line = diagnostic blocks that differ from the blocks of the same job alone"))
+            break
     if real:
         best = min(real, key=lambda p: os.path.getsize(p["target"]) if os.path.exists(p["target"]) else 1 << 30)
         srcs = {q: open(q, errors="replace").read() for q in best["paths"] if os.sep + "C19gen" + os.sep in q and os.path.exists(q)}
